@@ -396,6 +396,44 @@ def c02g(ctx):
                 ctx.fail(o, nx[0], "the tier upgrade can take an element out of the small vector and go on without inserting it into the large set: that backward edge is lost")
 
 
+def c02i(ctx):
+    """K3.  An executor may await the same dependency more than once at a time (join!/select! over the same key, a helper
+    task asking again).  The first call registers the callee in the node's dependency table; later calls find it there.
+    The undo token that un-registers a cancelled call must therefore belong to the registration, not to the call: if every
+    call gets a token, dropping one of two concurrent requests removes the dependency the other one has recorded (the node
+    is stored without that edge and is never invalidated through it), and dropping both trips the `is_some()` assertion in
+    abort_callee inside a Drop.  In the shape of the code: UndoRegisterCallee::new is control-dependent on the answer of
+    QueryComputing::register_calee ("newly registered"), or abort_callee's removal is guarded by a registration count."""
+    prog = ctx.prog
+    o = ctx.ob("C02.i", "register_callee/undo-token-belongs-to-the-registration", "K4",
+               "Engine::register_callee creates an UndoRegisterCallee only when this call made the registration (or un-registering is reference-counted)")
+    bodies = [b for b in prog.find(r"^Engine::register_callee(::\{closure#\d+\})?$")]
+    sites = [(b, s) for b in bodies for s in b.calls_to(r"register_callee::UndoRegisterCallee::new$")]
+    regs = [(b, s) for b in bodies for s in b.calls_to(r"QueryComputing::register_calee$")]
+    o.sites = len(sites) + len(regs)
+    if len(sites) != 1 or len(regs) != 1 or sites[0][0] is not regs[0][0]:
+        ctx.fail(o, "(program)", "anchor missing: UndoRegisterCallee::new / QueryComputing::register_calee in Engine::register_callee (%d / %d)" % (len(sites), len(regs)))
+        return
+    b, new = sites[0]
+    reg = regs[0][1]
+    ctx.touch(b)
+    # (a) the token's creation depends on what the registration answered
+    guarded = False
+    for bb in b.live_blocks:
+        t = b.blocks[bb]["term"]
+        if t["k"] == "switch" and b.bb_dominates(bb, new.bb) and bb != new.bb and any(x.kind == "call" and x.site == reg for x in df.origins_of_operand(b, t["op"])):
+            guarded = True
+    # (b) or un-registering is counted: abort_callee's removal depends on a counter it decrements
+    ab = ctx.touch(prog.body("QueryComputing::abort_callee"))
+    rm = ab.calls_to(r"HashMap::<K, V, H>::remove_sync$|HashMap::<K, V, H>::remove_if_sync$|OccupiedEntry::<.*>::remove(_entry)?$")
+    counted = bool(ab.calls_to(r"atomic::Atomic.*::fetch_sub$")) or any(
+        st["rv"].get("k") == "bin" and st["rv"]["op"] in ("Sub", "SubWithOverflow") for blk in ab.blocks for st in blk["stmts"] if st["k"] == "assign")
+    if not guarded and not (counted and rm):
+        ctx.fail(o, new, "Engine::register_callee hands out an UndoRegisterCallee for every call, also when the callee was already registered by another request of the same "
+                 "executor (QueryComputing::register_calee does not say which): dropping one of two concurrent requests for one key un-registers the dependency the other "
+                 "has recorded, dropping both panics in abort_callee's assertion")
+
+
 def run(ctx):
     # "a dependency recorded by one of many callers is never lost": the caller sets are key-of-set entries - their cold
     # loader, staging overlay and merging reader must not drop a member (C09.g staging / C09.i), evaluated here as C02.h
@@ -403,6 +441,13 @@ def run(ctx):
     ctx.alias = {"C09.g": "C02.h", "C09.i": "C02.h"}
     ctx.run_clause("C02.h", C09.c09g_staging)
     ctx.run_clause("C02.h", C09.c09i)
+    ctx.alias = {}
+    ctx.run_clause("C02.i", c02i)
+    # several tracked engines and sessions: a reader that had to wait for the phase lock must read the epoch AFTER it got the
+    # lock, else it runs after the session it queued behind with the epoch from before it (C04.a, evaluated here as C02.j)
+    from . import C04
+    ctx.alias = {"C04.a": "C02.j"}
+    ctx.run_clause("C02.j", C04.c04a)
     ctx.alias = {}
     ctx.run_clause("C02.f", c02f)
     ctx.run_clause("C02.g", c02g)
